@@ -30,6 +30,9 @@ pub struct SchedState {
     pub progress: u64,
     /// hand-overs forced because the baton holder blocked on a lock owned by a parked client
     pub lock_handovers: u64,
+    /// has the current holder actually resumed since it was given the baton? (until then its OS thread is
+    /// asleep merely because the wake-up has not been delivered yet)
+    holder_acked: bool,
     tids: Vec<i32>,
     mode: Mode,
     mailbox_full: Vec<bool>,
@@ -48,6 +51,8 @@ pub struct Sched {
     state: Mutex<SchedState>,
     cvs: Vec<Condvar>,
     main_cv: Condvar,
+    /// called (with the scheduler lock held) whenever the baton had to be taken from a holder asleep on a lock
+    pub on_lock_handover: Option<fn()>,
 }
 
 impl Sched {
@@ -92,6 +97,7 @@ impl Sched {
                 in_build_budget: 3000,
                 progress: 0,
                 lock_handovers: 0,
+                holder_acked: false,
                 tids: vec![0; n],
                 mode,
                 mailbox_full: vec![false; mailboxes],
@@ -99,6 +105,7 @@ impl Sched {
             }),
             cvs: (0..n).map(|_| Condvar::new()).collect(),
             main_cv: Condvar::new(),
+            on_lock_handover: None,
         }
     }
 
@@ -196,7 +203,7 @@ impl Sched {
 
     /// Main thread: hand the baton to the first client and wait until every client is done (or deadlock).
     /// While waiting it watches for a stalled baton holder: if the holder has not reached the scheduler for
-    /// a while AND its OS thread is asleep, it is blocked on a lock that a parked client holds (the code under
+    /// a few milliseconds AND its OS thread is asleep, it is blocked on a lock that a parked client holds (the code under
     /// test keeps a lock across a switch point). The baton is then handed to another runnable client so that
     /// the lock can be released; the sleeper re-joins at its next switch point. This never triggers on code
     /// without such locks, so determinism of ordinary runs is untouched.
@@ -207,13 +214,14 @@ impl Sched {
         }
         let first = Self::choose(&mut st, None, true);
         st.current = first;
+        st.holder_acked = false;
         if let Some(f) = first {
             self.cvs[f].notify_one();
         }
         let mut last_progress = st.progress;
         let mut stalls = 0u32;
         while !st.all_done && !st.deadlock {
-            let (g, timeout) = self.main_cv.wait_timeout(st, std::time::Duration::from_millis(15)).unwrap();
+            let (g, timeout) = self.main_cv.wait_timeout(st, std::time::Duration::from_millis(2)).unwrap();
             st = g;
             if !timeout.timed_out() || st.all_done || st.deadlock {
                 continue;
@@ -224,36 +232,49 @@ impl Sched {
                 continue;
             }
             stalls += 1;
-            if stalls < 4 {
+            if stalls < 3 {
                 continue;
             }
             if let Some(holder) = st.current {
-                if Self::thread_sleeps(st.tids[holder]) {
+                if st.holder_acked && Self::thread_sleeps(st.tids[holder]) {
                     // confirm over a few more samples: a sleeping holder stays asleep
                     let tid = st.tids[holder];
                     drop(st);
                     let mut asleep = true;
                     for _ in 0..3 {
-                        std::thread::sleep(std::time::Duration::from_millis(5));
+                        std::thread::sleep(std::time::Duration::from_millis(1));
                         asleep &= Self::thread_sleeps(tid);
                     }
                     st = self.state.lock().unwrap();
-                    if asleep && st.current == Some(holder) && st.progress == last_progress && !st.all_done {
+                    if asleep && st.current == Some(holder) && st.holder_acked && st.progress == last_progress && !st.all_done {
                         st.status[holder] = Status::BlockedOnLock;
                         st.lock_handovers += 1;
+                        if let Some(f) = self.on_lock_handover {
+                            f();
+                        }
                         match Self::choose(&mut st, Some(holder), true) {
                             Some(n) => {
                                 st.switches += 1;
                                 st.current = Some(n);
+                                st.holder_acked = false;
                                 self.cvs[n].notify_one();
                             }
                             None => {
-                                // everybody else is done or blocked: the build never returns
                                 st.current = None;
-                                st.deadlock = true;
-                                for cv in &self.cvs {
-                                    cv.notify_one();
+                                let others_pending = st
+                                    .status
+                                    .iter()
+                                    .enumerate()
+                                    .any(|(i, x)| i != holder && *x == Status::BlockedOnLock);
+                                if !others_pending {
+                                    // everybody else is done or blocked for good: the build never returns
+                                    st.deadlock = true;
+                                    for cv in &self.cvs {
+                                        cv.notify_one();
+                                    }
                                 }
+                                // otherwise an earlier sleeper is running without the baton (it owns the lock now)
+                                // and will re-join at its next switch point, taking the baton
                             }
                         }
                     }
@@ -275,6 +296,7 @@ impl Sched {
         while st.current != Some(me) && !st.deadlock {
             st = self.cvs[me].wait(st).unwrap();
         }
+        st.holder_acked = true;
         st
     }
 
@@ -285,6 +307,7 @@ impl Sched {
         while st.current != Some(me) && !st.deadlock {
             st = self.cvs[me].wait(st).unwrap();
         }
+        st.holder_acked = true;
     }
 
     fn hand_over<'a>(
@@ -303,11 +326,13 @@ impl Sched {
                     st.switches_in_build += 1;
                 }
                 st.current = Some(n);
+                st.holder_acked = false;
                 self.cvs[n].notify_one();
                 if wait_back {
                     while st.current != Some(me) && !st.deadlock {
                         st = self.cvs[me].wait(st).unwrap();
                     }
+                    st.holder_acked = true;
                 }
             }
             None => {
@@ -317,7 +342,15 @@ impl Sched {
                     st.all_done = true;
                 } else if st.status.iter().any(|s| *s == Status::BlockedOnLock) {
                     // a sleeper is still to re-join (the lock it waits for may just have been released):
-                    // it takes the baton itself when it reaches its next switch point
+                    // it takes the baton itself when it reaches its next switch point; a caller that cannot
+                    // continue by itself (blocked on a mailbox) waits until the baton comes back to it
+                    if wait_back {
+                        while st.current != Some(me) && !st.deadlock {
+                            st = self.cvs[me].wait(st).unwrap();
+                        }
+                        st.holder_acked = true;
+                    }
+                    return;
                 } else {
                     st.deadlock = true;
                     for cv in &self.cvs {
